@@ -1,6 +1,7 @@
 package netwalk
 
 import (
+	"encoding/json"
 	"errors"
 	"fmt"
 	"net"
@@ -198,6 +199,38 @@ func kindsOf(peers []mPeer, host string) string {
 
 func runC18(t *testing.T, env core.Env, rep *core.Report) {
 	rep.Rule = "one evaluation = one event (add inbound/outbound/persistent from a host, done, ban, clock advance) applied in one reachable state of the real peer bookkeeping handlers, or one environment answer (dial success/refusal, disconnect, remove, retry timer) applied in one reachable state of the real connection manager, each compared with a counting model; non-trivial = a limit, a ban or a failed dial is involved; distinct by canonical state x event"
+	if env.Replay != "" {
+		var rf struct {
+			Replay struct {
+				Part   string          `json:"part"`
+				Events json.RawMessage `json:"events"`
+				Target int             `json:"target"`
+				Policy string          `json:"policy"`
+			} `json:"replay"`
+		}
+		core.ReadJSON(env.Replay, &rf)
+		rep.Bound = "replay of " + env.Replay
+		rep.Executions, rep.Evaluations, rep.States = 1, 1, 1
+		switch rf.Replay.Part {
+		case "admission":
+			var hist []bookEv
+			_ = json.Unmarshal(rf.Replay.Events, &hist)
+			for _, p := range runBook(t, hist).Problems {
+				rep.Violate(core.Violation{Kind: "admission/" + classifyAdmission(p), What: p, Replay: map[string]any{"engine": "netwalk", "property": "C18", "part": "admission", "events": hist, "events_str": fmt.Sprint(hist)}})
+			}
+		case "connmgr":
+			var hist []cmEv
+			if json.Unmarshal(rf.Replay.Events, &hist) != nil {
+				for i := 0; i < 26; i++ {
+					hist = append(hist, cmEv{Kind: "refuse"})
+				}
+			}
+			for _, p := range runCM(t, rf.Replay.Target, rf.Replay.Policy, hist).Problems {
+				rep.Violate(core.Violation{Kind: "connmgr/" + classifyCM(p), What: p, Replay: map[string]any{"engine": "netwalk", "property": "C18", "part": "connmgr", "target": rf.Replay.Target, "policy": rf.Replay.Policy, "events": hist}})
+			}
+		}
+		return
+	}
 	depth := 8
 	if env.Tier == "thorough" {
 		depth = 10
